@@ -91,7 +91,15 @@ RULE = ("random archives with dyadic objectives / measures: GridArchive 2-D (dim
         "measure_order, boundary_lw, explicit bounds where they exist), each run once with the archive and once with "
         "df=archive.data(return_type='pandas'), and for half of the variants a third time with a frame a caller may "
         "legitimately pass (rows sorted / reversed / shuffled / sliced without reset_index / relabelled / custom "
-        "metric in the objective column): the picture must be that of the frame's rows read by position; a case is "
+        "metric in the objective column): the picture must be that of the frame's rows read by position; per case "
+        "also ONE frame object used again: looked at first (plotted once / get_field / iterelites / not at all; "
+        "ArchiveDataFrame or plain DataFrame), then twice edited IN PLACE with the layout unchanged (custom metric "
+        "assigned to the objective column, in-place sort_values, .loc assignment, permuted measure column) and plotted "
+        "after each edit: every picture shows what the frame stores at the time of the call; strata grid2-sub / "
+        "grid1-sub / parallel-sub: the archive is a USER SUBCLASS of GridArchive overriding index_of together with "
+        "boundaries (non-uniform cells: log-spaced or arbitrary dyadic edges), judged by the same oracles against "
+        "the subclass's own boundaries (which are also what the Lean model is given) plus 'each elite's colour sits "
+        "in the drawn cell that contains its measures' (all grid strata); a case is "
         "non-trivial when it stores at least one elite and either "
         "two distinct objectives or exactly one elite (so that a wrong cell-to-colour assignment is visible), "
         "counted once per distinct list of adds")
@@ -119,6 +127,12 @@ ASSUMPTIONS = [
     "proximity_archive_plot: not judged)",
     "the frame passed as df is archive.data(return_type='pandas') or a reordering / relabelling / row subset of "
     "it, possibly with a replaced objective column (distinct, in-range indices)",
+    "a subclass instance is a GridArchive: the docs do not single out subclasses, but ArchiveBase names index_of as "
+    "the method child classes override, GridArchive.boundaries is documented as THE description of the cells "
+    "(boundaries[i][j], boundaries[i][j + 1] = bounds of cell j in dimension i) and index_of's docstring reads the "
+    "cell of a measure off archive.boundaries: a subclass keeping these two consistent is drawn with its own cell "
+    "geometry (CVTArchive / SlidingBoundariesArchive subclasses are not drawn: a non-Euclidean index_of has no "
+    "Voronoi picture, and the sliding boundaries are rewritten by the archive's own remap)",
     "parallel_axes_plot: on an axis whose archive bounds coincide (zero range) the limits need only contain the "
     "stored value and be non-degenerate (the code widens by 0.01, a non-dyadic constant: line data and limits are "
     "then compared within 2^-30 * scale); everywhere else the comparison is exact",
@@ -369,32 +383,144 @@ def make_frame(archive, mode):
     raise ValueError(mode)
 
 
-def view_data(archive, view):
-    """(rows the picture must show, frame to pass as df=): the archive's data(), or the rows of a modified frame
-    in positional order."""
-    if view is None:
-        return archive.data(), None
-    from ribs.archives import ArchiveDataFrame
-    frame = make_frame(archive, view)
-    adf = ArchiveDataFrame(frame)
-    n = len(adf)
+def frame_rows(frame, measure_dim):
+    """the rows of a frame in POSITIONAL order, as the picture must show them."""
+    n = len(frame)
     # the measures are read column by column under their explicit names measures_0 .. measures_{d-1} (not through
     # get_field: with >= 11 components the names do not sort like the indices)
-    meas = np.stack([np.asarray(frame[f"measures_{i}"], dtype=float) for i in range(archive.measure_dim)], axis=1) \
-        if n else np.zeros((0, archive.measure_dim))
+    meas = np.stack([np.asarray(frame[f"measures_{i}"], dtype=float) for i in range(measure_dim)], axis=1) \
+        if n else np.zeros((0, measure_dim))
     return {"index": np.asarray(frame["index"]).reshape(n),
             "objective": np.asarray(frame["objective"], dtype=float).reshape(n),
-            "measures": meas.reshape(n, archive.measure_dim)}, frame
+            "measures": meas.reshape(n, measure_dim)}
+
+
+def view_data(archive, view, fn=None):
+    """(rows the picture must show, frame to pass as df=): the archive's data(), or the rows of a modified frame
+    in positional order, or (Reuse) the rows of ONE frame object that is plotted again after an in-place edit."""
+    if view is None:
+        return archive.data(), None
+    if isinstance(view, Reuse):
+        return view.advance(archive, fn)
+    frame = make_frame(archive, view)
+    return frame_rows(frame, archive.measure_dim), frame
 
 
 def view_tag(view):
+    if isinstance(view, Reuse):
+        return f" [{view.label()}]"
     return f" [rows of a {view} frame passed as df=]" if view else ""
 
 
+def keeps_measures(view):
+    """the measure columns of the frame passed as df= are those of the archive (row by row)."""
+    if isinstance(view, Reuse):
+        return not view.meas_edited
+    return view is None or not view.startswith("meas-")
+
+
 def plots_for(case, view):
+    if isinstance(view, Reuse):
+        # the frame object is the caller's own: passed as it is (as_passed must not wrap it into a new object)
+        k = view.step["plot"] % len(case["plots"])
+        yield k, dict(case["plots"][k], dfmode=view.label(), dfstat="reused-frame", plain_df=False)
+        return
     for k, v in enumerate(case["plots"]):
         if view is None or v.get("dfmode") == view:
             yield k, v
+
+
+# ONE frame object used again and again: df = archive.data(return_type="pandas") is looked at (plotted, or read through
+# get_field / iterelites), then EDITED IN PLACE the way a caller works with a pandas frame -- a custom metric assigned to
+# the objective column ("To display a custom metric, replace the objective column"), an in-place sort, a .loc
+# assignment, permuted measure columns -- and plotted again, twice.  Every picture must show what the frame stores at
+# the time of the call (rows read by position); the layout of the frame (columns, number of rows) never changes.
+REUSE_EDITS = ["assign", "sort", "loc", "meas"]
+REUSE_PRIMES = ["plot", "get_field", "iterelites", "none"]
+REUSE_METRICS = ["neg", "rev", "rank"]
+
+
+def gen_reuse(rng, case):
+    heat = case["kind"] in ("grid1", "grid2", "cvt1", "cvt2")   # heat-maps do not read the measure columns
+    edits = ["assign", "assign", "loc", "sort"] if heat else REUSE_EDITS
+    steps = [{"edit": rng.choice(edits), "metric": rng.choice(REUSE_METRICS), "asc": rng.random() < 0.5,
+              "plot": rng.randrange(max(1, len(case["plots"])))} for _ in range(2)]
+    return {"prime": rng.choice(REUSE_PRIMES), "plain": rng.random() < 0.25, "steps": steps}
+
+
+class Reuse:
+    """the state of one caller-owned frame across the steps of a reuse history (see run_case)."""
+
+    def __init__(self, spec):
+        self.spec = spec
+        self.frame = None
+        self.step = None
+        self.done = []
+        self.meas_edited = False
+
+    def label(self):
+        how = {"plot": "plotted once", "get_field": "read through get_field", "iterelites": "read through iterelites",
+               "none": "fresh"}[self.prime_kind()]
+        return (f"the same {'plain pandas.DataFrame' if self.spec.get('plain') else 'ArchiveDataFrame'} object "
+                f"({how}) passed as df= after in-place edits {self.done}")
+
+    def prime_kind(self):
+        p = self.spec.get("prime", "plot")
+        # a plain DataFrame has no get_field / iterelites: it is looked at by plotting it
+        return "plot" if self.spec.get("plain") and p in ("get_field", "iterelites") else p
+
+    def advance(self, archive, fn):
+        if self.frame is None:
+            df = archive.data(return_type="pandas")
+            if self.spec.get("plain"):
+                import pandas as pd
+                df = pd.DataFrame(df)
+            self.frame = df
+            self.prime(archive, fn)
+        self.edit(self.step)
+        return frame_rows(self.frame, archive.measure_dim), self.frame
+
+    def prime(self, archive, fn):
+        df, kind = self.frame, self.prime_kind()
+        stat(f"reuse:first-use:{kind}")
+        if kind == "plot":
+            fg = Fig(False)
+            try:    # (an exception here shows again, and is judged, in the plot that follows)
+                fn(archive, fg.ax, df=df, **({"vmin": 0.0, "vmax": 1.0} if len(df) == 0 else {}))
+            except Exception:  # pylint: disable=broad-except
+                stat("reuse:first plot raised")
+            finally:
+                fg.close()
+        elif kind == "get_field":
+            for f in ("index", "objective", "measures", "solution", "threshold"):
+                df.get_field(f)
+        elif kind == "iterelites":
+            list(df.iterelites())
+
+    def edit(self, step):
+        df, n = self.frame, len(self.frame)
+        layout = (list(df.columns), n)
+        kind = step["edit"]
+        stat(f"reuse:edit:{kind}")
+        if kind == "assign":
+            o = df["objective"].to_numpy(copy=True)
+            new = {"neg": -o, "rev": o[::-1].copy(), "rank": 10.0 + 0.25 * np.arange(n)}[step["metric"]]
+            df["objective"] = new
+            self.done.append(f"df['objective'] = <{step['metric']}>")
+        elif kind == "sort":
+            df.sort_values("objective", ascending=bool(step["asc"]), kind="stable", inplace=True)
+            self.done.append(f"df.sort_values('objective', ascending={bool(step['asc'])}, inplace=True)")
+        elif kind == "loc":
+            mask = np.arange(n) % 2 == 0
+            df.loc[mask, "objective"] = (df["objective"].max() + 1.0) if n else 0.0
+            self.done.append("df.loc[<every other row>, 'objective'] = max + 1")
+        elif kind == "meas":
+            df["measures_0"] = df["measures_0"].to_numpy(copy=True)[::-1].copy()
+            self.meas_edited = True
+            self.done.append("df['measures_0'] = <reversed>")
+        else:
+            raise ValueError(kind)
+        assert (list(df.columns), len(df)) == layout and df is self.frame
 
 
 # DOCUMENTED defaults of the keyword options (docstrings of ribs.visualize): an option whose value in a variant
@@ -724,7 +850,7 @@ def call_both(fn, archive, variant, kwargs, read, where, vmin, vmax, frame=None,
 
 def call_frame(fn, archive, variant, kwargs, read, where, vmin, vmax, frame, twin_axes=0, markers=()):
     stat(f"plots:{fn.__name__}", 1)
-    stat(f"df-mode:{variant.get('dfmode')}")
+    stat(f"df-mode:{variant.get('dfstat') or variant.get('dfmode')}")
     tag = f"{where} df=<{variant.get('dfmode')} frame, row labels {list(frame.index)[:6]}>"
     base_sum = archive_sum(archive)
     frame = as_passed(frame, variant)
@@ -830,14 +956,87 @@ def add_ops(a, case, objs, meas):
         a.add(np.arange(len(objs), dtype=float)[:, None], objs, meas)
 
 
-def build_grid(case):
+_SUBCLASS = {}
+
+
+def nonuniform_grid_class():
+    """A user extension of GridArchive with NON-UNIFORM cells: it overrides the two documented pieces that say where
+    the cells are -- the hook `index_of` (measures -> cell, ArchiveBase: "child classes typically override") and the
+    property `boundaries` ("boundaries[i][j] and boundaries[i][j + 1] are the lower and upper bounds of cell j in
+    dimension i"; index_of's docstring reads the cell of a measure off `archive.boundaries`) -- consistently."""
+    if "grid" not in _SUBCLASS:
+        from ribs.archives import GridArchive
+
+        class NonUniformGridArchive(GridArchive):
+            """GridArchive whose cell edges are given explicitly per dimension."""
+
+            def __init__(self, *, edges, **kwargs):
+                super().__init__(**kwargs)
+                self._edges = [np.asarray(e, dtype=self.dtypes["measures"]) for e in edges]
+
+            @property
+            def boundaries(self):
+                return self._edges
+
+            def index_of(self, measures):
+                measures = np.asarray(measures, dtype=self.dtypes["measures"])
+                super().index_of(measures)      # the documented validation of shape / finiteness
+                grid = [np.clip(np.searchsorted(e, measures[:, i], side="right") - 1, 0, len(e) - 2)
+                        for i, e in enumerate(self._edges)]
+                return self.grid_to_int_index(np.stack(grid, axis=1))
+
+        _SUBCLASS["grid"] = NonUniformGridArchive
+    return _SUBCLASS["grid"]
+
+
+SUB_EDGES = ["log", "log-rev", "random", "random"]
+
+
+def gen_sub(rng, dims, lows, widths):
+    """cell edges of the non-uniform grid: dyadic (exact), strictly increasing from the lower to the upper bound;
+    'log' = every cell twice as wide as the one before it (a log-spaced grid), 'random' = arbitrary interior edges."""
+    kinds, edges = [], []
+    for d, lo, w in zip(dims, lows, widths):
+        kind = rng.choice(SUB_EDGES)
+        if kind == "random":
+            inner = sorted(rng.sample(range(1, 64), d - 1))
+            e = [lo] + [lo + w * k / 64 for k in inner] + [lo + w]
+        else:
+            fr = [0.0] + [2.0 ** -(d - k) for k in range(1, d + 1)]
+            if kind == "log-rev":
+                fr = [1.0 - x for x in reversed(fr)]
+            e = [lo + w * x for x in fr]
+        kinds.append(kind)
+        edges.append(e)
+    return {"kinds": kinds, "edges": edges}
+
+
+def make_grid_archive(case, dims, ranges, **kw):
+    """the stock GridArchive, or (case['sub']) the user subclass with its own index_of / boundaries."""
     from ribs.archives import GridArchive
+    sub = case.get("sub")
+    if not sub:
+        return GridArchive(solution_dim=1, dims=dims, ranges=ranges, **kw)
+    stat(f"content:{case['kind']}:user subclass of GridArchive (index_of + boundaries overridden)")
+    for k in sub["kinds"]:
+        stat(f"subclass-edges:{k}")
+    a = nonuniform_grid_class()(solution_dim=1, dims=dims, ranges=ranges, edges=sub["edges"], **kw)
+    if any(len(b) > 2 and not np.array_equal(b, np.linspace(b[0], b[-1], len(b))) for b in a.boundaries):
+        stat(f"content:{case['kind']}:subclass cells are not uniform")
+    return a
+
+
+def build_grid(case):
     dims = case["dims"]
     ranges = [(lo, lo + w) for lo, w in zip(case["lows"], case["widths"])]
-    a = GridArchive(solution_dim=1, dims=dims, ranges=ranges, **cma_kwargs(case))
+    a = make_grid_archive(case, dims, ranges, **cma_kwargs(case))
     ops = case["ops"]
-    meas = [[lo + (g + 0.5) * w / d for g, lo, w, d in zip(op["cell"], case["lows"], case["widths"], dims)]
-            for op in ops]
+    if case.get("sub"):     # the centre of the cell as the archive itself describes it
+        bnd = a.boundaries
+        meas = [[float(bnd[i][g] + bnd[i][g + 1]) / 2 for i, g in enumerate(op["cell"])] for op in ops]
+    else:
+        meas = [[lo + (g + 0.5) * w / d for g, lo, w, d in zip(op["cell"], case["lows"], case["widths"], dims)]
+                for op in ops]
     add_ops(a, case, [op["o"] for op in ops], meas)
     return a
 
@@ -847,7 +1046,7 @@ def run_grid(case, view=None):
     a = build_grid(case)
     dims = case["dims"]
     one_d = len(dims) == 1
-    data, frame = view_data(a, view)
+    data, frame = view_data(a, view, grid_archive_heatmap)
     objs = [float(o) for o in data["objective"]]
     gidx = a.int_to_grid_index(data["index"]) if len(objs) else np.zeros((0, len(dims)), dtype=int)
     stored = {tuple(int(g) for g in gi): F(o) for gi, o in zip(gidx, data["objective"])}
@@ -859,6 +1058,8 @@ def run_grid(case, view=None):
         vmin, vmax = effective_limits(v, objs)
         where = f"{case['kind']} plot#{k} tr={int(tr)} vmin={vmin} vmax={vmax}"
         where += view_tag(view)
+        if case.get("sub"):
+            where += " [archive = user subclass of GridArchive overriding index_of + boundaries, non-uniform cells]"
         obs, fail = call_both(grid_archive_heatmap, a, v, {"transpose_measures": tr},
                               lambda fg, n: read_quadmesh(fg.ax), where, vmin, vmax, frame=frame)
         if fail:
@@ -881,6 +1082,19 @@ def run_grid(case, view=None):
                         return Failure("oracle", f"{where}: drawn cell row={r} col={c} shows "
                                        f"{_short(obs['colors'][r][c])}, archive cell {cell} stores "
                                        f"{_short(stored.get(cell))}")
+            # every elite's colour sits in the drawn cell that contains its measures (closed cells: a point on an
+            # edge belongs to either side)
+            if keeps_measures(view):
+                for o, m in zip(data["objective"], data["measures"]):
+                    px, py = F(m[xdim]), (Fraction(1, 2) if one_d else F(m[ydim]))
+                    cs_ = [c for c in range(want_shape[1]) if obs["xe"][c] <= px <= obs["xe"][c + 1]]
+                    rs_ = [r for r in range(want_shape[0]) if obs["ye"][r] <= py <= obs["ye"][r + 1]]
+                    if len(obs["xe"]) != want_shape[1] + 1 or len(obs["ye"]) != want_shape[0] + 1 or \
+                            not any(obs["colors"][r][c] == F(o) for r in rs_ for c in cs_):
+                        return Failure("oracle", f"{where}: the elite with measures {[float(x) for x in m]} and "
+                                       f"objective {float(o)} is not shown by the drawn cell that contains its "
+                                       f"measures (x edges {_short(obs['xe'])}, y edges {_short(obs['ye'])}; that cell "
+                                       f"shows {_short([obs['colors'][r][c] for r in rs_ for c in cs_])})")
             if obs["xe"] != bnd[xdim]:
                 return Failure("oracle", f"{where}: x edges {_short(obs['xe'])} != boundaries[{xdim}]")
             if obs["ye"] != ([Fraction(0), Fraction(1)] if one_d else bnd[ydim]):
@@ -1002,7 +1216,7 @@ def run_cvt1(case, view=None):
         f = samples_refused(a, cvt_archive_heatmap, "cvt1")
         if f:
             return f
-    data, frame = view_data(a, view)
+    data, frame = view_data(a, view, cvt_archive_heatmap)
     objs = [float(o) for o in data["objective"]]
     stored = {int(i): F(o) for i, o in zip(data["index"], data["objective"])}
     cs = [F(c) for c in a.centroids[:, 0]]
@@ -1124,7 +1338,7 @@ def run_cvt2(case, view=None):
         f = samples_refused(a, cvt_archive_heatmap, "cvt2")
         if f:
             return f
-    data, frame = view_data(a, view)
+    data, frame = view_data(a, view, cvt_archive_heatmap)
     objs = [float(o) for o in data["objective"]]
     stored = {int(i): float(o) for i, o in zip(data["index"], data["objective"])}
     cmap = plt.get_cmap(CMAP)
@@ -1266,7 +1480,7 @@ def run_sliding(case, view=None):
                                  remap_frequency=case["remap"], buffer_capacity=case["buffer"])
     ops = case["ops"]
     a.add(np.arange(len(ops), dtype=float)[:, None], [op["o"] for op in ops], [op["m"] for op in ops])
-    data, frame = view_data(a, view)
+    data, frame = view_data(a, view, sliding_boundaries_archive_heatmap)
     objs = [float(o) for o in data["objective"]]
     bnd = [[F(b) for b in bb] for bb in a.boundaries]
     lo = [F(x) for x in a.lower_bounds]
@@ -1371,7 +1585,7 @@ def run_prox(case, view=None):
     ops = case["ops"]
     for i, op in enumerate(ops):  # one call per candidate: admission depends on what is already stored
         a.add([[float(i)]], [op["o"]], [op["m"]])
-    data, frame = view_data(a, view)
+    data, frame = view_data(a, view, proximity_archive_plot)
     objs = [float(o) for o in data["objective"]]
     meas = [(F(m[0]), F(m[1])) for m in data["measures"]]
     for k, v in plots_for(case, view):
@@ -1548,14 +1762,14 @@ def run_parallel(case, view=None):
     lows, widths = case["lows"], case["widths"]
     ops = case["ops"]
     if case.get("arch", "grid") == "grid":
-        a = GridArchive(solution_dim=1, dims=case["dims"], ranges=[(lo, lo + w) for lo, w in zip(lows, widths)])
+        a = make_grid_archive(case, case["dims"], [(lo, lo + w) for lo, w in zip(lows, widths)])
         a.add(np.arange(len(ops), dtype=float)[:, None], [op["o"] for op in ops], [op["m"] for op in ops])
     else:
         a = ProximityArchive(solution_dim=1, measure_dim=len(lows), k_neighbors=1, novelty_threshold=0.0,
                              initial_capacity=8)
         for i, op in enumerate(ops):
             a.add([[float(i)]], [op["o"]], [op["m"]])
-    data, frame = view_data(a, view)
+    data, frame = view_data(a, view, parallel_axes_plot)
     objs = [float(o) for o in data["objective"]]
     rows = [(F(o), [F(x) for x in m]) for o, m in zip(data["objective"], data["measures"])]
     lo = [F(x) for x in a.lower_bounds]
@@ -1721,6 +1935,16 @@ def run_case(case):
             f = RUNNERS[case["kind"]](case, mode)
             if f:
                 return f
+        # third pass: ONE frame object, looked at, then edited in place and plotted again (twice)
+        ru = case.get("reuse")
+        if ru and case["ops"] and case["plots"]:
+            view = Reuse(ru)
+            for step in ru["steps"]:
+                view.step = step
+                stat(f"reuse:{case['kind']}:plot of a frame edited in place after its first use")
+                f = RUNNERS[case["kind"]](case, view)
+                if f:
+                    return f
         return None
     finally:
         import matplotlib.pyplot as plt
@@ -1760,26 +1984,35 @@ def observations(ctx):
 def run(ctx):
     import matplotlib
     matplotlib.use("Agg")
-    plan = [  # stratum, generator, patterns, cases quick / thorough, time budget quick / thorough (s)
-        ("grid2", lambda r, p, s: gen_grid(r, False, p, s), CELL_PATTERNS, 36, 600, 6.5, 55.0),
-        ("grid1", lambda r, p, s: gen_grid(r, True, p, s), CELL_PATTERNS, 40, 600, 3.0, 35.0),
-        ("cvt1", gen_cvt1, CELL_PATTERNS, 36, 550, 3.5, 40.0),
-        ("cvt2", gen_cvt2, CELL_PATTERNS, 26, 400, 3.5, 45.0),
-        ("sliding", gen_sliding, POINT_PATTERNS, 30, 450, 3.0, 40.0),
-        ("prox", gen_prox, POINT_PATTERNS, 26, 400, 3.0, 35.0),
-        ("parallel", gen_parallel, POINT_PATTERNS, 22, 320, 6.0, 70.0),
+    plan = [  # stratum, generator, patterns, cases quick / thorough, time budget quick / thorough (s), subclass
+        ("grid2", lambda r, p, s: gen_grid(r, False, p, s), CELL_PATTERNS, 36, 600, 8.0, 60.0, False),
+        ("grid1", lambda r, p, s: gen_grid(r, True, p, s), CELL_PATTERNS, 40, 600, 4.0, 40.0, False),
+        # the same generators, the archive being a user subclass of GridArchive with non-uniform cells
+        ("grid2-sub", lambda r, p, s: gen_grid(r, False, p, s), CELL_PATTERNS, 16, 300, 3.5, 30.0, True),
+        ("grid1-sub", lambda r, p, s: gen_grid(r, True, p, s), CELL_PATTERNS, 12, 200, 1.5, 15.0, True),
+        ("cvt1", gen_cvt1, CELL_PATTERNS, 36, 550, 4.5, 45.0, False),
+        ("cvt2", gen_cvt2, CELL_PATTERNS, 26, 400, 4.5, 50.0, False),
+        ("sliding", gen_sliding, POINT_PATTERNS, 30, 450, 4.0, 45.0, False),
+        ("prox", gen_prox, POINT_PATTERNS, 26, 400, 4.0, 40.0, False),
+        ("parallel", gen_parallel, POINT_PATTERNS, 22, 320, 7.5, 80.0, False),
+        ("parallel-sub", gen_parallel, POINT_PATTERNS, 6, 60, 2.0, 15.0, True),
     ]
-    deadline = 34.0 if ctx.quick else 330.0  # wall seconds since the start of the check (build + audit included)
-    for name, gen, pats, nq, nt, bq, bt in plan:
+    deadline = 50.0 if ctx.quick else 420.0  # wall seconds since the start of the check (build + audit included)
+    for name, gen, pats, nq, nt, bq, bt, sub in plan:
         counter = [0]
 
-        def gen_k(rng, gen=gen, pats=pats, counter=counter):
+        def gen_k(rng, gen=gen, pats=pats, counter=counter, sub=sub):
             # explore() draws cases in index order, so content pattern and objective scale are functions of the
             # case index (cycle lengths are coprime: every combination occurs)
             pat = pats[counter[0] % len(pats)]
             scale = OBJ_SCALES[counter[0] % len(OBJ_SCALES)]
             counter[0] += 1
-            return gen(rng, pat, scale)
+            case = gen(rng, pat, scale)
+            # drawn last from the per-case generator (the draws above are those of the earlier rounds)
+            if sub and case.get("arch", "grid") == "grid":
+                case["sub"] = gen_sub(rng, case["dims"], case["lows"], case["widths"])
+            case["reuse"] = gen_reuse(rng, case)
+            return case
         # corpus cases of the stratum are replayed whatever the budget
         budget = max(0.5, min(bq if ctx.quick else bt, deadline - ctx.elapsed()))
         ctx.explore(name, gen_k, run_case, ctx.n(nq, nt), nontrivial=nontrivial, time_budget=budget)
